@@ -38,6 +38,20 @@ def legacy_records(vc):
             if fr[0] in (0x25, 0x26, 0x27) and len(fr) <= 400:      # v0.5 - v0.7: what ZSTD_LEGACY_SUPPORT=5 decodes
                 name = ('legacy v0.%d frame #%d' % (ver, n)).encode()
                 f.write(struct.pack('<I', len(name)) + name + struct.pack('<I', len(fr)) + fr + struct.pack('<I', 0) + struct.pack('<I', 0)); n += 1
+        # hand-built legacy frames (raw blocks only; written from the legacy decoders' own header parsing): smallest window of each version, blocks of
+        # exactly / one more than / twice the window-limited block size, so that the streaming decoders' staging buffers meet a block that does not fit
+        def blk(kind, size, body):
+            return bytes([(kind << 6) | ((size >> 16) & 7), (size >> 8) & 0xFF, size & 0xFF]) + body
+        text = bytes((i * 7 + i // 5) & 0x7F for i in range(9000))
+        for ver, magic, hdr, bs in ((7, b'\x27\xB5\x2F\xFD', b'\x00\x00', 1024), (6, b'\x26\xB5\x2F\xFD', b'\x00', 4096), (5, b'\x25\xB5\x2F\xFD', b'\x00', 2048)):
+            for label, sizes in (('one block of 100', [100]), ('block = limit', [bs]), ('block = limit + 1', [bs + 1]), ('block announcing twice the limit', [2 * bs - 48]), ('small then oversize', [64, bs + 600])):
+                fr = magic + hdr
+                off = 0
+                for sz in sizes:
+                    fr += blk(1, sz, text[off:off + sz]); off += sz
+                fr += blk(3, 0, b'')
+                name = ('legacy-synth v0.%d %s' % (ver, label)).encode()
+                f.write(struct.pack('<I', len(name)) + name + struct.pack('<I', len(fr)) + fr + struct.pack('<I', 0) + struct.pack('<I', 0)); n += 1
     return out if n else None
 
 
